@@ -392,6 +392,8 @@ impl Prop for Reloads {
                     let r = udp_exchange(addr, &query(name, t, 0x3000 + (k as u16 % 1000)), Duration::from_secs(8)).ok().flatten();
                     seen2.lock().unwrap().push((Instant::now(), r, k % PROBES.len(), t0.elapsed().as_millis() as u64));
                     k += 1;
+                    // 16 shards probe 16 servers at once: leave the machine some air
+                    std::thread::sleep(Duration::from_micros(300));
                 }
             });
             std::thread::sleep(Duration::from_millis(3));
@@ -524,7 +526,7 @@ impl Prop for Reloads {
                 // "keeps answering throughout": local names are answered from
                 // memory; seconds of delay mean the query was held up
                 max_latency_ms = max_latency_ms.max(*latency_ms);
-                if *latency_ms > 2_000 {
+                if *latency_ms > 3_000 {
                     return out.fail("probe-stalled", format!("probe {:?} around reload {ver} was answered after {latency_ms} ms{}", PROBES[*pk], if h.slow_upstream && s.inflight { " (a question for the silent forwarder was in flight)" } else { "" }));
                 }
                 let Some(r) = r else {
@@ -591,7 +593,7 @@ impl Prop for Reloads {
         out.counts.push(("probes-answered-while-load-blocked", slow_probes));
         out.counts.push(("reloads-with-an-upstream-question-in-flight", inflight_steps));
         out.counts.push(("any-questions-merging-local-and-upstream-data", merged_questions));
-        out.classes.push(format!("slowest-probe:{}", match max_latency_ms { 0..=99 => "<100ms", 100..=499 => "<500ms", 500..=999 => "<1s", _ => "1..2s" }));
+        out.classes.push(format!("slowest-probe:{}", match max_latency_ms { 0..=99 => "<100ms", 100..=499 => "<500ms", 500..=999 => "<1s", 1000..=1999 => "1..2s", _ => "2..3s" }));
         stop_upstream.store(true, Ordering::Relaxed);
         if slow_probes > 0 {
             out.classes.push("slow-reload".into());
@@ -609,7 +611,7 @@ pub fn def() -> PropertyDef {
     PropertyDef {
         id: "C19",
         level: "fault_enumeration",
-        rule: "One `resolved --authoritative-only` process per history (shipped binary, guard off, RUST_LOG=info) configured with an explicit zone file (-z), a zone directory (-Z; one history in four uses directories only, the main zone and hosts files living inside them; one history in four runs the server in forwarding mode towards a forwarder that never answers and puts, in half of its steps, a question about a non-local name just before the signal, so that the reload coincides with a resolution waiting for its upstream; every probe must be answered within 2 s; another history in four forwards to a forwarder that answers at once with empty replies, and asks the hosts names with QTYPE ANY and RD set before every reload (local and upstream data merged into one answer; the cache outlives the reload, so nothing local may get into it): one zone with 0..6000 padding records so that loading takes milliseconds, plus up to three optional zone files), a hosts file (-a) and a hosts directory (-A). A history has 3..10 steps; step v rewrites every file so that each record carries the version v in its data (TXT text, address octet, SOA serial, CNAME TTL), adds or removes the optional files, and with probability 2/5 plants one fault (syntax error in the explicit or in a directory zone file, a non-UTF-8 file, the explicit file replaced by a directory or removed, a malformed hosts line, a second SOA, a dangling symbolic link in the zone or the hosts directory, both directories renamed away), then sends SIGUSR1 and waits for the 'done - success|failure' log line while a thread fires probes in a tight loop (several A records, TXT, ANY, an alias crossing two files, a hosts entry); one step in four is a slow reload: a writer-less FIFO in the hosts directory blocks the load, six probes sent meanwhile must each be answered within 3 s from the configuration in force, then the FIFO is fed. Oracle: the log says success iff the step planted no fault; every reply around the reload has markers that all agree and name the previous or the new good version; after the reload every probe shows exactly the good version (the new one after success, the previous good one after failure), optional records are present iff their file belongs to that configuration; every probe is answered and the process stays alive. Non-trivial = the history has a succeeding and a failing reload and at least one reply fell between signal and log line. Distinct by hash of the history.",
+        rule: "One `resolved --authoritative-only` process per history (shipped binary, guard off, RUST_LOG=info) configured with an explicit zone file (-z), a zone directory (-Z; one history in four uses directories only, the main zone and hosts files living inside them; one history in four runs the server in forwarding mode towards a forwarder that never answers and puts, in half of its steps, a question about a non-local name just before the signal, so that the reload coincides with a resolution waiting for its upstream; every probe must be answered within 3 s (the stall of defect F16 was 5 s); another history in four forwards to a forwarder that answers at once with empty replies, and asks the hosts names with QTYPE ANY and RD set before every reload (local and upstream data merged into one answer; the cache outlives the reload, so nothing local may get into it): one zone with 0..6000 padding records so that loading takes milliseconds, plus up to three optional zone files), a hosts file (-a) and a hosts directory (-A). A history has 3..10 steps; step v rewrites every file so that each record carries the version v in its data (TXT text, address octet, SOA serial, CNAME TTL), adds or removes the optional files, and with probability 2/5 plants one fault (syntax error in the explicit or in a directory zone file, a non-UTF-8 file, the explicit file replaced by a directory or removed, a malformed hosts line, a second SOA, a dangling symbolic link in the zone or the hosts directory, both directories renamed away), then sends SIGUSR1 and waits for the 'done - success|failure' log line while a thread fires probes in a tight loop (several A records, TXT, ANY, an alias crossing two files, a hosts entry); one step in four is a slow reload: a writer-less FIFO in the hosts directory blocks the load, six probes sent meanwhile must each be answered within 3 s from the configuration in force, then the FIFO is fed. Oracle: the log says success iff the step planted no fault; every reply around the reload has markers that all agree and name the previous or the new good version; after the reload every probe shows exactly the good version (the new one after success, the previous good one after failure), optional records are present iff their file belongs to that configuration; every probe is answered and the process stays alive. Non-trivial = the history has a succeeding and a failing reload and at least one reply fell between signal and log line. Distinct by hash of the history.",
         assumptions: vec!["timing of probes relative to the swap is the operating system's (not controlled); the count of replies inside the reload window is reported"],
         parts: vec![Box::new(Reloads)],
         budget_s: |t| t.pick(1200, 10_800),
